@@ -194,6 +194,14 @@ Definition reg_inv (r : reg) : Prop :=
   NoDup (r_ifaces r) /\
   NoDup (map fst (r_aliases r)).
 
+Lemma reg_inv_unfold : forall r, reg_inv r <->
+  NoDup (map fst (r_plugins r)) /\
+  Forall (fun e => NoDup (snd e)) (r_plugins r) /\
+  NoDup (map fst (r_contracts r)) /\
+  NoDup (r_ifaces r) /\
+  NoDup (map fst (r_aliases r)).
+Proof. intros r. apply iff_refl. Qed.
+
 Lemma reg_inv_plugins_of : forall r s, reg_inv r -> NoDup (plugins_of r s).
 Proof.
   intros r s (_ & H & _). unfold plugins_of.
@@ -233,8 +241,7 @@ Section Step.
     end.
   Proof.
     intros r o. destruct o as [s p|s p|s|id k|id|i|i|a o]; simpl;
-      try (repeat match goal with |- context [match ?x with _ => _ end] => destruct x end;
-           simpl; split; [discriminate | tauto]).
+      try (try destruct (alookup s (r_plugins r)); simpl; (split; [discriminate | intros []])).
     - destruct (existsb (implements k) (r_ifaces r)) eqn:E; simpl.
       + split; [discriminate|]. intros H. apply existsb_exists in E. destruct E as [i [H1 H2]].
         rewrite (H i H1) in H2. discriminate.
@@ -243,7 +250,8 @@ Section Step.
         assert (existsb (implements k) (r_ifaces r) = true) by (apply existsb_exists; eauto).
         congruence.
     - unfold amem. destruct (known_op o); destruct (alookup a (r_aliases r)); simpl;
-        split; try discriminate; try reflexivity; intros [H | H]; congruence.
+        split; intros H; try reflexivity; try (left; reflexivity); try (right; discriminate);
+        try congruence; destruct H; congruence.
   Qed.
 
   (* ---------- 3./4. effect on the plugin lists; frames ---------- *)
@@ -284,6 +292,10 @@ Section Step.
 
   Definition same_but_plugins (r r' : reg) : Prop :=
     r_contracts r' = r_contracts r /\ r_ifaces r' = r_ifaces r /\ r_aliases r' = r_aliases r.
+
+  Lemma same_but_plugins_unfold : forall r r', same_but_plugins r r' <->
+    r_contracts r' = r_contracts r /\ r_ifaces r' = r_ifaces r /\ r_aliases r' = r_aliases r.
+  Proof. intros r r'. apply iff_refl. Qed.
 
   Lemma frame_AddPlugin : forall r s p,
     same_but_plugins r (step r (AddPlugin s p)) /\
